@@ -265,3 +265,61 @@ Example C15_reader_axis_example :
   | Some s => (ax_dt (s_axis s), ax_t0 (s_axis s), ax_n (s_axis s))
   | None => (0, 0, 0) end = (1500000000, 0, 29).
 Proof. vm_compute. reflexivity. Qed.
+
+(* ------------------------------------------------------------------ re-use: set_input, shared method dicts *)
+(* "Fs taken from the series" for the series being analysed NOW: in any world (after any history of
+   constructions on shared method dicts, reads and set_inputs) every read of a SpectralAnalyzer (psd,
+   cpsd, periodogram, spectrum_fourier, spectrum_multi_taper) uses the rate of its current input … *)
+Theorem C15_spectral_read_uses_current_rate : forall w a r an,
+  nth_error (w_ans w) a = Some an -> an_cls an = ASpectral -> attr_of ASpectral r = true ->
+  snd (step w (OpRead a r)) = Some (s_fs (an_input an), ax_dt (s_axis (an_input an))).
+Proof. exact spectral_read_current. Qed.
+(* … the current input is the one of the last set_input and no other operation touches it … *)
+Theorem C15_set_input_sets_current : forall w a s an, nth_error (w_ans w) a = Some an ->
+  nth_error (w_ans (fst (step w (OpSetInput a s)))) a = Some (mk_an (an_cls an) (an_dict an) s).
+Proof. exact set_input_sets. Qed.
+Theorem C15_other_steps_keep_input : forall w o b an, nth_error (w_ans w) b = Some an ->
+  (forall s, o <> OpSetInput b s) -> nth_error (w_ans (fst (step w o))) b = Some an.
+Proof. exact step_keeps_inputs. Qed.
+(* … hence after set_input(B) a SpectralAnalyzer reads with B's rate. *)
+Theorem C15_spectral_after_set_input : forall w a sB an r,
+  nth_error (w_ans w) a = Some an -> an_cls an = ASpectral -> attr_of ASpectral r = true ->
+  snd (step (fst (step w (OpSetInput a sB))) (OpRead a r)) = Some (s_fs sB, ax_dt (s_axis sB)).
+Proof. exact spectral_after_set_input. Qed.
+Print Assumptions C15_spectral_after_set_input.
+
+Definition sA15 : series := mk_series (mk_axis 0 2000000000 Ums 128) 500%float.
+Definition sB15 : series := mk_series (mk_axis 0 1000000000000 Us 100) 1%float.
+(* non-vacuity: a shared dict without 'Fs', cpsd of the first analyzer writes A's rate into it, the psd
+   of the second analyzer (on B) still uses B's rate; and re-use through set_input *)
+Example C15_spectral_histories :
+  run_ops world0 [OpNewDict None; OpInit ASpectral (Some 0%nat) sA15; OpInit ASpectral (Some 0%nat) sB15;
+                  OpRead 0 RCpsd; OpRead 1 RPsd; OpSetInput 0 sB15; OpRead 0 RPsd]
+  = [None; None; None; Some (500%float, 2000000000); Some (1%float, 1000000000000); None;
+     Some (1%float, 1000000000000)].
+Proof. vm_compute. reflexivity. Qed.
+
+(* The faithful model REFUTES the same claim for the coherence family (method['Fs'] is a snapshot taken
+   by the constructor): known findings C15/set_input/… and C15/method-dict/… (the C15 faces of the
+   C14 / C05 findings). *)
+Theorem C15_coherence_set_input_refuted : exists c ops sB f dt,
+  (c = ACoherence \/ c = ASparse) /\
+  last (run_ops world0 (OpInit c None sA15 :: OpSetInput 0 sB :: ops)) None = Some (f, dt) /\
+  f <> s_fs sB.
+Proof.
+  exists ACoherence, [OpRead 0 RFrequencies], sB15, 500%float, 1000000000000.
+  split; [left; reflexivity|]. split; [vm_compute; reflexivity|].
+  intros H. assert (E : PrimFloat.eqb 500%float (s_fs sB15) = true) by (rewrite H; reflexivity).
+  vm_compute in E. discriminate E.
+Qed.
+Theorem C15_coherence_shared_dict_refuted : exists ops f dt,
+  last (run_ops world0 (OpNewDict None :: OpInit ACoherence (Some 0%nat) sA15 ::
+                        OpInit ACoherence (Some 0%nat) sB15 :: ops)) None = Some (f, dt) /\
+  f <> s_fs sB15 /\ ops = [OpRead 1 RSpectrum].
+Proof.
+  exists [OpRead 1 RSpectrum], 500%float, 1000000000000.
+  split; [vm_compute; reflexivity|]. split; [|reflexivity].
+  intros H. assert (E : PrimFloat.eqb 500%float (s_fs sB15) = true) by (rewrite H; reflexivity).
+  vm_compute in E. discriminate E.
+Qed.
+Print Assumptions C15_coherence_set_input_refuted.
